@@ -24,6 +24,9 @@ pub struct Case {
     /// one path per caller (1 = sequential)
     pub paths: Vec<B>,
     pub mode: u32,
+    /// concurrent callers may ask for different (valid) modes
+    #[serde(default)]
+    pub modes: Vec<u32>,
     pub capi: bool,
     pub schedule: Vec<u8>,
 }
@@ -48,7 +51,7 @@ pub fn strategy(concurrent: bool) -> impl Strategy<Value = Case> {
         prop_oneof![3 => Just(Kcfg::NoMountApi), 3 => Just(Kcfg::NoOpenat2NoMountApi), 1 => Just(Kcfg::NoOpenat2), 1 => Just(Kcfg::Full)],
         prop_oneof![8 => Just(false), 1 => Just(true)],
         prop_oneof![3 => Just(0o022u32), 1 => Just(0o077u32), 1 => Just(0u32), 1 => Just(0o027u32)],
-        (new_path(), 0u8..4, vec(any::<u8>(), 0..3), 2usize..4),
+        (new_path(), 0u8..4, vec(any::<u8>(), 3..=3), 2usize..4),
         mk_mode(),
         prop_oneof![4 => Just(false), 1 => Just(true)],
         vec(any::<u8>(), 0..40),
@@ -58,8 +61,10 @@ pub fn strategy(concurrent: bool) -> impl Strategy<Value = Case> {
             let path = build_new_path(&tree, &p);
             if !concurrent {
                 let capi = capi && !no_symlinks && !path.has_nul();
-                return Case { tree, kcfg, no_symlinks, umask, paths: vec![path], mode, capi, schedule: vec![] };
+                return Case { tree, kcfg, no_symlinks, umask, paths: vec![path], mode, modes: vec![], capi, schedule: vec![] };
             }
+            // (giant paths are the sequential part's business)
+            let path = if path.len() > 600 { B::new("a/new0") } else { path };
             // equal / prefix-related / sibling paths for the other callers
             let mut paths = vec![path.clone()];
             for w in 1..workers {
@@ -72,7 +77,9 @@ pub fn strategy(concurrent: bool) -> impl Strategy<Value = Case> {
                 }
                 paths.push(q);
             }
-            Case { tree, kcfg, no_symlinks, umask, paths, mode: mode & 0o1777, capi: false, schedule }
+            let table = [0o755u32, 0o700, 0o1777, 0o750, 0o711];
+            let modes: Vec<u32> = (0..paths.len()).map(|w| if extra.len() > 2 && w > 0 { table[(extra[2] as usize + w) % table.len()] } else { mode & 0o1777 }).collect();
+            Case { tree, kcfg, no_symlinks, umask, paths, mode: mode & 0o1777, modes, capi: false, schedule }
         })
 }
 
@@ -110,7 +117,8 @@ pub fn child(case: &Case) -> Report {
     let before = Snapshot::take_path(&sb.base);
     let rootfd = openat_raw(libc::AT_FDCWD, sb.root().as_os_str().as_encoded_bytes(), libc::O_PATH | libc::O_DIRECTORY, 0).expect("open root");
     let rootpath = sb.root();
-    let ops: Vec<Op> = case.paths.iter().map(|p| Op::MkdirAll { path: p.clone(), mode: case.mode }).collect();
+    let mode_of = |i: usize| -> u32 { case.modes.get(i).copied().unwrap_or(case.mode) };
+    let ops: Vec<Op> = case.paths.iter().enumerate().map(|(i, p)| Op::MkdirAll { path: p.clone(), mode: mode_of(i) }).collect();
     // classification: does the deepest existing prefix get reached through a link or '..'?
     let existing_prefix_via_link_or_dotdot = {
         let p = &case.paths[0];
@@ -225,15 +233,17 @@ pub fn child(case: &Case) -> Report {
             None => continue,
         };
         // mode = requested & ~umask, setgid inherited from the parent
-        let mut want = case.mode & 0o1777 & !case.umask;
+        let mut wants: Vec<u32> = (0..case.paths.len()).map(|i| mode_of(i) & 0o1777 & !case.umask).collect();
         if pe.mode & libc::S_ISGID != 0 {
-            want |= libc::S_ISGID;
+            for w in wants.iter_mut() {
+                *w |= libc::S_ISGID;
+            }
             if *gid != pe.gid {
                 shape.push(format!("{}: gid {} not inherited from setgid parent (gid {})", p, gid, pe.gid));
             }
         }
-        if *mode != want {
-            shape.push(format!("{}: mode {:o}, expected {:o} (requested {:o}, umask {:o}, parent mode {:o})", p, mode, want, case.mode, case.umask, pe.mode & 0o7777));
+        if !wants.contains(mode) {
+            shape.push(format!("{}: mode {:o}, expected one of {:?} (umask {:o}, parent mode {:o})", p, mode, wants.iter().map(|w| format!("{:o}", w)).collect::<Vec<_>>(), case.umask, pe.mode & 0o7777));
         }
         // every created name is a component of one of the requested paths
         let named = case.paths.iter().any(|q| q.0.split(|&c| c == b'/').any(|c| c == name.as_slice()));
@@ -304,9 +314,10 @@ pub fn judge(case: &Case, rep: &Report, stats: &mut Stats) -> Result<(), Fail> {
             check: if conc { "mkdir-all-concurrent".into() } else { "mkdir-all".into() },
             signature: sig,
             message: format!(
-                "mkdir_all({:?}, 0o{:o}){} umask {:o} via {} backend{}, schedule {:?}\n  outcomes: {:?}\n  handles: {:?}\n  in-root resolution afterwards: {:?}\n  created: {:?}\n  {}",
+                "mkdir_all({:?}, 0o{:o} {:?}){} umask {:o} via {} backend{}, schedule {:?}\n  outcomes: {:?}\n  handles: {:?}\n  in-root resolution afterwards: {:?}\n  created: {:?}\n  {}",
                 case.paths.iter().map(|p| p.to_string()).collect::<Vec<_>>(),
                 case.mode,
+                case.modes.iter().map(|w| format!("{:o}", w)).collect::<Vec<_>>(),
                 if case.capi { " [C]" } else { "" },
                 case.umask,
                 backend(case.kcfg),
@@ -361,7 +372,8 @@ pub fn judge(case: &Case, rep: &Report, stats: &mut Stats) -> Result<(), Fail> {
         let any_ok = rep.callers.iter().any(|c| c.out.is_ok());
         if any_ok {
             if let Some((i, bad)) = rep.callers.iter().enumerate().find(|(_, c)| !c.out.is_ok()) {
-                let env = matches!(&bad.out, Out::Err { errno: Some(e), .. } if *e == libc::EAGAIN) || matches!(&bad.out, Out::Err { kind, .. } if kind == "safety");
+                // (a safety violation made of 16 EAGAINs is filtered by the immediate re-runs of the whole case)
+                let env = matches!(&bad.out, Out::Err { errno: Some(e), .. } if *e == libc::EAGAIN);
                 // a caller whose own path is not creatable (e.g. below a file) may fail legitimately:
                 // judge by what the path resolves to afterwards
                 // '..' in the not-yet-existing part is refused by design; whether it is
@@ -393,7 +405,7 @@ pub fn check_once(case: &Case, stats: &mut Stats) -> Result<(), Fail> {
 fn run_lane(ctx: &Ctx, lr: &mut LaneResult) {
     search(ctx, lr, "mkdir-all", ctx.tier.pick(8000, 80000), strategy(false), &check);
     if lr.violations.is_empty() {
-        search_opts(ctx, lr, "mkdir-all-concurrent", ctx.tier.pick(640, 6400), strategy(true), &check, 40);
+        search_opts(ctx, lr, "mkdir-all-concurrent", ctx.tier.pick(1280, 12800), strategy(true), &check, 40);
     }
 }
 
